@@ -229,7 +229,7 @@ func c01worker(arg string) {
 			if strings.HasSuffix(init.name, "-expired-unpurged") && !thorough && init.name != "[x]-expired-unpurged" {
 				continue // quick tier: one start state with an expired, unpurged entry
 			}
-			if (strings.HasPrefix(init.name, "long-") || strings.HasPrefix(init.name, "large-")) && !thorough {
+			if (strings.HasPrefix(init.name, "long-") || strings.HasPrefix(init.name, "large-") || strings.HasPrefix(init.name, "huge-")) && !thorough {
 				continue
 			}
 			if strings.HasPrefix(init.name, "grown-") {
